@@ -420,40 +420,60 @@ def _ranking_position_start(proj, rk):
 
 
 def _check_wrapper(res: Result, proj, w, kernel):
-    calls = [n_ for n_ in ast.walk(w.node) if isinstance(n_, ast.Call) and dotted(n_.func) == kernel.name]
-    if len(calls) != 1:
-        res.bad("T4", "pairwise_cost_matrix:kernel-call", w.loc(), f"{len(calls)} calls of the kernel in the wrapper")
-        return
-    c = calls[0]
-    pos, sch, wts = w.param_names[0], w.param_names[1], w.param_names[2]
-    args = [src(a) for a in c.args]
-    good = len(args) == 5 and args[0] == pos and args[2] == wts
-    sch_ok = len(args) == 5 and args[1] in (f"asarray({sch}.penalty_vectors)", f"array({sch}.penalty_vectors)",
-                                            f"np.asarray({sch}.penalty_vectors)")
-    # nb_elem / nb_rankings are shape[0] / shape[1]
-    env = {}
-    for n_ in ast.walk(w.node):
-        if isinstance(n_, ast.Assign) and isinstance(n_.targets[0], ast.Name):
-            env[n_.targets[0].id] = src(n_.value)
-    def shape_of(a, k):
-        return a == f"{pos}.shape[{k}]" or env.get(a) == f"{pos}.shape[{k}]" or a == f"shape({pos})[{k}]" \
-            or env.get(a) == f"shape({pos})[{k}]"
-    dims_ok = len(args) == 5 and shape_of(args[3], 0) and shape_of(args[4], 1)
-    res.check(good and sch_ok and dims_ok, "T4", "pairwise_cost_matrix:kernel-call", w.loc(c),
-              ok_detail="kernel gets (positions, [B,T] rows of the scheme, weights, shape[0], shape[1])",
-              bad_detail=f"kernel called with {args}")
-    # default weights are all ones, one per ranking
-    ones_ok = False
-    for n_ in ast.walk(w.node):
-        if isinstance(n_, ast.If) and src(n_.test) == f"{wts} is None":
-            for a in n_.body:
-                if isinstance(a, ast.Assign) and src(a.targets[0]) == wts and isinstance(a.value, ast.Call) \
-                        and (dotted(a.value.func) or "").split(".")[-1] == "ones" \
-                        and src(a.value.args[0]) == f"{pos}.shape[1]":
-                    ones_ok = True
-    res.check(ones_ok, "T4", "pairwise_cost_matrix:default-weights", w.loc(),
-              ok_detail="missing weights default to ones(nb_rankings)",
-              bad_detail="default weights are not ones(positions.shape[1])")
+    """The wrapper (and whatever helpers it delegates to) evaluated on a real Dataset's position matrix and a real
+    scheme, with the kernel intercepted: what reaches the kernel must be (positions, the scheme's [B, T] rows, one weight
+    per ranking - all ones when none is given -, number of elements, number of rankings)."""
+    from .datamodel import World
+    from ..engines.abseval import Vec, Mat, Unsupported as U_
+    world = World(proj)
+    SS = proj.cls("corankco.scoringscheme", "ScoringScheme")
+    pen = [[0., 1., 2., 3., 4., 5.], [6., 6., 0., 7., 7., 8.]]
+    sch = world.rt.new(SS, [[list(pen[0]), list(pen[1])]], {})
+    ds = world.dataset([[{1}, {2, 3}], [{3}, {1}], [{2}], [{2}, {3}, {1}], [{1, 2, 3}]])
+    seen = []
+
+    def kern(args, kw):
+        seen.append((list(args), dict(kw)))
+        from ..engines.npmodel import Cube
+        n = len(args[0].rows) if isinstance(args[0], Mat) else 0
+        c = Cube([[[0.0, 0.0, 0.0] for _ in range(n)] for _ in range(n)])
+        c.as_matrix = True
+        return c
+    world.rt.overrides[kernel.qualname] = kern
+    pba = proj.cls("corankco.algorithms.pairwisebasedalgorithm", "PairwiseBasedAlgorithm")
+
+    def rows(v):
+        if isinstance(v, Mat):
+            return [list(r) for r in v.rows]
+        if isinstance(v, list):
+            return [list(x.vals) if isinstance(x, Vec) else list(x) for x in v]
+        return None
+
+    def vec(v):
+        return list(v.vals) if isinstance(v, Vec) else (list(v) if isinstance(v, list) else None)
+    for label, weights in (("default-weights", None), ("given-weights", Vec([2.0, 1.0, 0.5, 3.0, 1.0]))):
+        seen.clear()
+        pos = world.call(ds, "get_positions")
+        try:
+            if weights is None:
+                world.rt.call_static(pba, w.name, pos, sch)
+            else:
+                world.rt.call_static(pba, w.name, pos, sch, weights)
+        except U_ as exc:
+            raise AnalysisError(f"{w.qualname}: unsupported construct at line {getattr(exc.node, 'lineno', '?')}: {exc}")
+        good = len(seen) == 1
+        detail = f"{len(seen)} calls of the kernel"
+        if good:
+            args, kw = seen[0]
+            good = (len(args) == 5 and not kw and rows(args[0]) == rows(pos) and rows(args[1]) == pen
+                    and vec(args[2]) == ([1.0] * 5 if weights is None else list(weights.vals)) and args[3] == 3 and args[4] == 5)
+            detail = (f"kernel called with positions {rows(args[0]) if args else None}, scheme rows "
+                      f"{rows(args[1]) if len(args) > 1 else None}, weights {vec(args[2]) if len(args) > 2 else None}, "
+                      f"sizes {args[3:]}")
+        res.check(good, "T4", f"pairwise_cost_matrix:{'kernel-call' if weights is not None else 'default-weights'}", w.loc(),
+                  ok_detail="kernel gets (positions, [B, T] rows of the scheme, " +
+                            ("the caller's weights" if weights is not None else "ones(nb_rankings)") + ", nb_elements, nb_rankings)",
+                  bad_detail=detail if not good else "")
     pv = proj.method(proj.cls("corankco.scoringscheme", "ScoringScheme"), "penalty_vectors")
     rets = [n_ for n_ in ast.walk(pv.node) if isinstance(n_, ast.Return)]
     res.check(len(rets) == 1 and src(rets[0].value) == "self._penalty_vectors", "T4",
